@@ -609,8 +609,15 @@ func (unmarshalableRes) MarshalJSON() ([]byte, error) { return nil, res.ErrNotFo
 
 // badValue returns a value that cannot be encoded.
 func badValue(id int) interface{} {
-	if id%2 == 0 {
+	switch id % 4 {
+	case 0:
 		return unmarshalableRes{}
+	case 1:
+		// bytes that claim to be JSON and are not
+		return json.RawMessage(`{"foo":"bar","list":[1,2}`)
+	case 2:
+		// bytes that would smuggle a second member into the response
+		return json.RawMessage(`null,"error":{"code":"x.y","message":"z"}`)
 	}
 	return unmarshalable{}
 }
@@ -638,6 +645,10 @@ func (e *Engine) runScript(s *Submission, script []string, r res.Resource, kind 
 			time.Sleep(time.Duration(ms) * time.Millisecond)
 		case "ev":
 			r.Event(arg, map[string]interface{}{"n": s.Op.ID})
+		case "evraw":
+			// a custom event whose payload is not valid JSON: it cannot be
+			// encoded, so nothing is published
+			r.Event(arg, json.RawMessage(`{"n":`+strconv.Itoa(s.Op.ID)+`,"list":[1,2}`))
 		case "chg":
 			r.ChangeEvent(map[string]interface{}{"k" + arg: s.Op.ID})
 		case "chgempty":
